@@ -436,6 +436,11 @@ class Parser:
         call_node = self.parse_expression()
         if not isinstance(call_node, nodes.Call):
             self.fail("expected call", node.lineno)
+
+        # the block itself is passed as ``caller``
+        if any(kwarg.key == "caller" for kwarg in call_node.kwargs):
+            self.fail("a call block cannot pass a 'caller' argument", node.lineno)
+
         node.call = call_node
         node.body = self.parse_statements(("name:endcall",), drop_needle=True)
         return node
